@@ -176,7 +176,7 @@ ostep!(n_k4_c1, Cfg { kind: 4, h: 1, d: 3, cur: 1, depth: [1, 0, 0, 1, 0, 0], ..
 ostep!(n_k5_c1, Cfg { kind: 5, h: 1, d: 3, cur: 1, depth: [1, 0, 0, 1, 0, 0], ..CFG0 });
 // @h prop=C10 unwind=10 rec=3 cutfmt=num uw=same_output.0:25;exit_model.0:25;exit.0:25;push.0:17;write.0:17 timeout=600 mem=12 what=형?_with_stack_1_selected:push_then_area_pop->gives_up
 ostep!(n_area_c1, Cfg { kind: 0, h: 1, d: 1, cur: 1, area: 3, depth: [1, 0, 0, 1, 0, 0], ..CFG0 });
-// @h prop=C10 unwind=10 rec=3 cutfmt=num uw=same_output.0:25;exit_model.0:25;exit.0:25;push.0:17;write.0:17 timeout=600 mem=12 what=흑_selects_stack_1_then_!_area_pop->gives_up
+// @h prop=C10 unwind=10 rec=3 cutfmt=num uw=same_output.0:25;exit_model.0:25;exit.0:25;push.0:17;write.0:17 timeout=600 mem=12 tier=thorough kind=stretch what=흑_selects_stack_1_then_!_area_pop->gives_up
 ostep!(n_dup_to_c1, Cfg { kind: 5, h: 1, d: 1, area: 4, dom: Dom::Digit, depth: [1, 0, 0, 1, 0, 0], ..CFG0 });
 // @h prop=C10 unwind=10 rec=2 cutfmt=1 uw=same_output.0:25;exit_model.0:25;exit.0:25;push.0:17;write.0:17 timeout=600 mem=12 what=kind_1_with_stack_2_selected:gives_up,state_untouched,no_read,no_exit,no_output
 ostep!(n_k1_c2, Cfg { kind: 1, h: 1, d: 3, cur: 2, depth: [1, 0, 0, 1, 0, 0], ..CFG0 });
@@ -190,7 +190,7 @@ ostep!(n_k4_c2, Cfg { kind: 4, h: 1, d: 3, cur: 2, depth: [1, 0, 0, 1, 0, 0], ..
 ostep!(n_k5_c2, Cfg { kind: 5, h: 1, d: 3, cur: 2, depth: [1, 0, 0, 1, 0, 0], ..CFG0 });
 // @h prop=C10 unwind=10 rec=3 cutfmt=num uw=same_output.0:25;exit_model.0:25;exit.0:25;push.0:17;write.0:17 timeout=600 mem=12 what=형?_with_stack_2_selected:push_then_area_pop->gives_up
 ostep!(n_area_c2, Cfg { kind: 0, h: 1, d: 1, cur: 2, area: 3, depth: [1, 0, 0, 1, 0, 0], ..CFG0 });
-// @h prop=C10 unwind=10 rec=3 cutfmt=num uw=same_output.0:25;exit_model.0:25;exit.0:25;push.0:17;write.0:17 timeout=600 mem=12 what=흑_selects_stack_2_then_!_area_pop->gives_up
+// @h prop=C10 unwind=10 rec=3 cutfmt=num uw=same_output.0:25;exit_model.0:25;exit.0:25;push.0:17;write.0:17 timeout=600 mem=12 tier=thorough kind=stretch what=흑_selects_stack_2_then_!_area_pop->gives_up
 ostep!(n_dup_to_c2, Cfg { kind: 5, h: 1, d: 2, area: 4, dom: Dom::Digit, depth: [1, 0, 0, 1, 0, 0], ..CFG0 });
 // @h prop=C10 unwind=10 rec=2 cutfmt=1 uw=same_output.0:25;exit_model.0:25;exit.0:25;push.0:17;write.0:17 timeout=600 mem=12 what=형_with_stdin_selected_and_no_area:pushes_onto_the_input_buffer,commits,no_read
 ostep!(n_push_c0, Cfg { kind: 0, h: 2, d: 2, cur: 0, depth: [1, 0, 0, 0, 0, 0], ..CFG0 });
